@@ -171,4 +171,11 @@ PROPS = {
             R("h26", "c08", "TestC08_Scripts", (2000, 8, 1500), (150000, 16, 8000)),
         ],
     },
+    "C14": {
+        "level": "exploration",
+        "units": [
+            R("h26", "c14", "TestC14_Scripts", (1500, 8, 1500), (100000, 16, 8000)),
+            R("h26", "c14", "TestC14_RegisterCancelStress", (400, 8, 1500), (20000, 16, 8000)),
+        ],
+    },
 }
